@@ -60,6 +60,8 @@ type ReplayValue struct {
 type path struct {
 	w        *worker
 	decs     []int // decisions (prefix given + extended during the run)
+	engineChoice bool // the path depends on a scheduling / select / timer / map-order choice
+	violated bool // a violation was reported on this path
 	prefix   int   // length of the forced prefix
 	pos      int
 	pc       []*Term
@@ -209,6 +211,11 @@ func (p *path) assume(c *Term, check bool) {
 func (p *path) choose(n int, conds []*Term, what string) int {
 	if n == 1 && (conds == nil || conds[0] == nil) {
 		return 0
+	}
+	switch what {
+	case "sched", "select", "timer", "timer-pick", "map order", "global map order":
+		// an engine-side choice the native runtime cannot be forced to repeat
+		p.engineChoice = true
 	}
 	if p.pos < len(p.decs) {
 		d := p.decs[p.pos]
@@ -518,6 +525,8 @@ type HarnessResult struct {
 	AssertsOK  map[string]int     // label -> times discharged (unsat or concretely true)
 	EngineErrs []string           // unsupported / solver problems
 	Samples    []string           // sample obligations
+	PassReplays []Violation       // a few completed, violation-free paths with a model of their inputs: replayed natively to validate the translation (Label = reached labels, comma separated)
+	PathSamples []string          // inputs of a few completed paths (ranges chosen, symbolic variables left universally quantified) and the labels they reached
 	Unwind     map[string]int     // loop label -> max count seen
 	Truncated  bool               // path budget exhausted
 	Wall       time.Duration
